@@ -30,14 +30,18 @@ struct RecController {
     poll: PollInterval,
     measurements: Vec<Measurement>,
     usable: Vec<bool>,
+    /// the calls in the order the source made them: `u` = set_usable, `m` = handle_measurement
+    calls: Vec<u8>,
 }
 
 impl SourceController for RecController {
     fn handle_measurement(&mut self, m: Measurement) {
         self.measurements.push(m);
+        self.calls.push(b'm');
     }
     fn set_usable(&mut self, usable: bool) {
         self.usable.push(usable);
+        self.calls.push(b'u');
     }
     fn desired_poll_interval(&self) -> PollInterval {
         self.poll
@@ -203,6 +207,8 @@ struct World {
     sent_cookies: Vec<Vec<u8>>,
     // bookkeeping for the oracles
     meas_since_send: usize,
+    /// the last flag handed to the controller by set_usable
+    last_usable_flag: Option<bool>,
     /// datagrams since the last request that were not accepted (forged, NAK, stale, …)
     junk_since_send: usize,
     sends: usize,
@@ -280,7 +286,7 @@ fn new_world(w: &[&str]) -> World {
         },
         initial_poll_interval: PollInterval::from_byte(limits.0 as u8),
     };
-    let controller = RecController { poll: config.poll_interval_limits.min, measurements: vec![], usable: vec![] };
+    let controller = RecController { poll: config.poll_interval_limits.min, measurements: vec![], usable: vec![], calls: vec![] };
     let mut adv_filter = None;
     let (mut source, _init_actions) = if mgr_mode {
         // the real wiring: an `NtpManager` (several are tried until the advertised id has a bit in chunk 0, so that
@@ -381,6 +387,7 @@ fn new_world(w: &[&str]) -> World {
         last_seal: None,
         sent_cookies: vec![],
         meas_since_send: 0,
+        last_usable_flag: None,
         junk_since_send: 0,
         sends: 0,
         polls_since_usable: 0,
@@ -426,6 +433,8 @@ fn now_ns(w: &World) -> u128 {
 /// which property's oracle (and generator bias) a stream uses
 #[derive(Clone, Copy, PartialEq, Eq, Debug)]
 enum Prop {
+    /// generator of C33, oracle: only the order of the controller calls (C03)
+    C03,
     C13,
     C07,
     C08,
@@ -498,6 +507,9 @@ fn exec_timer(wd: &mut World, w: &[&str], run: &mut Run, prop: Prop, key: &mut S
         };
         let n = s.ncookies + s.nplace;
         let usable = wd.source.controller.usable.get(usable_before).copied();
+        if let Some(b) = usable {
+            wd.last_usable_flag = Some(b);
+        }
         let us = match usable {
             Some(b) if wd.source.controller.usable.len() == usable_before + 1 => (b as u8).to_string(),
             _ => "missing".to_string(),
@@ -835,6 +847,7 @@ fn exec_incoming(wd: &mut World, w: &[&str], run: &mut Run, prop: Prop, key: &mu
     let cookies_before = wd.source.nts.as_ref().map(|n| n.cookies.len());
     let m0 = wd.source.controller.measurements.len();
     let u0 = wd.source.controller.usable.len();
+    let c0 = wd.source.controller.calls.len();
     let actions: Vec<NtpSourceAction> =
         wd.source.handle_incoming(&bytes, NtpTimestamp::from_bits(sts.to_be_bytes()), NtpTimestamp::from_bits(rcv.to_be_bytes())).collect();
     let ms = &wd.source.controller.measurements[m0..];
@@ -843,6 +856,26 @@ fn exec_incoming(wd: &mut World, w: &[&str], run: &mut Run, prop: Prop, key: &mu
     let demob = actions.iter().any(|a| matches!(a, NtpSourceAction::Demobilize));
     let other = actions.iter().any(|a| !matches!(a, NtpSourceAction::Demobilize));
     let accepted = ms.len() == 2 && us.len() == 1;
+    // order of the controller calls of this op (C03: a measurement may only reach the controller after the usability of
+    // the answer that produced it has been reported)
+    let ord: String = wd.source.controller.calls[c0..].iter().map(|b| *b as char).collect();
+    if let Some(first_m) = ord.find('m') {
+        let last_before = if accepted { wd.last_usable_flag } else { None };
+        if !ord[..first_m].contains('u') {
+            run.oracle_fail("c03_usable_before_measurement", &format!("order={} usable_now={} usable_before={:?}", ord, us.first().map(|b| *b as u8).unwrap_or(9), last_before.map(|b| b as u8)),
+                "a measurement was handed to the controller before the usability of the answer that produced it was reported (a source that this answer makes unusable would still contribute)");
+        }
+    }
+    if accepted {
+        if wd.last_usable_flag == Some(true) && !us[0] {
+            run.hit("answer-makes-usable-source-unusable");
+        } else if wd.last_usable_flag == Some(false) && us[0] {
+            run.hit("answer-makes-unusable-source-usable");
+        }
+    }
+    if let Some(b) = us.last() {
+        wd.last_usable_flag = Some(*b);
+    }
     if other {
         out = "unexpected-actions".to_string();
     } else if demob && ms.is_empty() && us.is_empty() {
@@ -850,7 +883,8 @@ fn exec_incoming(wd: &mut World, w: &[&str], run: &mut Run, prop: Prop, key: &mu
     } else if accepted && !demob {
         let (a, b) = (&ms[0], &ms[1]);
         out = format!(
-            "acc us={} m={},{},{},{},{},{},{},{}",
+            "acc ord={} us={} m={},{},{},{},{},{},{},{}",
+            ord,
             us[0] as u8,
             ts_hex(a.sender_ts),
             ts_hex(a.receiver_ts),
@@ -1846,7 +1880,10 @@ fn stream_prop(stream: &str) -> Prop {
         "sm_c11" => Prop::C11,
         "sm_c12" => Prop::C12,
         "c14_exh" | "sm_c14" => Prop::C14,
+        // sm_c03: the C33 generator (stratum vs local stratum, loops, Bloom filters: frequent usable <-> unusable
+        // transitions), registered under C03 for the order of the controller calls
         "sm_c33" | "c33_accept" => Prop::C33,
+        "sm_c03" => Prop::C03,
         other => panic!("unknown VERIF_STREAM {:?}", other),
     }
 }
@@ -1878,7 +1915,7 @@ fn entry() {
         _ => common::drive(
             &stream,
             "scripts of 5-60 ops on a real NtpSource (plain/NTS; v4, upgrading, upgraded, v5; limits 0..17): timers with assorted desired intervals and clock advances, answers built from relative descriptions (origin match/prev/off-by-one, uid placement auth/enc/untrusted x match/wrong/short/long/prev, cipher s2c/c2s/other/none, KISS codes, v5 poll requests, upgrade marker, cookies per list, refid responses), replays, late answers, bit flips, truncation, raw junk; non-trivial = at least one timer/incoming executed; distinct by action/decision signature",
-            |rng, _idx, _run| gen_script(rng, prop),
+            |rng, _idx, _run| gen_script(rng, if prop == Prop::C03 { Prop::C33 } else { prop }),
             |ops, run| exec_case(ops, run, prop, &rt),
         ),
     }
